@@ -141,6 +141,11 @@ class PyModel:
             if cls not in self.src.classes and hasattr(self.stubs, 'e_%s_%s' % (cls, attr)):
                 return BoundMethod(obj, attr)
             v = ex.known(ex.get_field(ref, attr))
+            # the pre-state is closed: a field that has not been written since entry, of an object that existed at
+            # entry, refers to something that existed at entry (never to what this activation allocated meanwhile)
+            fa = L.simp(ex.heap.arr('F_' + attr))
+            if fa.eq(ex.base_array('F_' + attr)):
+                ex.assume(z3.Implies(ref < ex.entry_next, L.refof(v) < ex.entry_next))
             ty = self.engine.shapes.field_ty(cls, attr)
             declared = cls not in self.src.classes or any((c, attr) in self.engine.shapes_fields() for c in self.src.mro(cls))
             if not declared:
@@ -791,6 +796,13 @@ class PyModel:
         a = ex.to_val(a)
         b = ex.to_val(b)
         if opname in ('Eq', 'NotEq'):
+            if ex.branch(z3.Or(z3.And(L.is_Obj(a), L.is_None(b)), z3.And(L.is_Obj(b), L.is_None(a))), 'eq-obj-none'):
+                o = a if L.is_true(L.simp(L.is_Obj(a))) or not L.is_true(L.simp(L.is_Obj(b))) else b
+                cls = ex.class_of(o)
+                if cls is not None:
+                    # an instance of a class the model knows (a package class, a PLY token / production): no __eq__ of
+                    # theirs makes an instance equal to None (a dataclass __eq__ answers NotImplemented -> identity)
+                    return L.BoolV(z3.BoolVal(opname != 'Eq'))
             if ex.branch(z3.Or(z3.And(L.is_Obj(a), L.is_scalar(b)), z3.And(L.is_Obj(b), L.is_scalar(a))), 'eq-obj-scalar'):
                 pkg = [x for x in (a, b) if ex.class_of(x) in self.src.classes]
                 if pkg:
@@ -849,6 +861,10 @@ class PyModel:
             return ex.heap.dhas(L.simp(Val.dref(c)), item)
         if ex.branch(z3.Or(L.is_List(c), L.is_Tuple(c)), 'in-seq'):
             r = self.seq_ref_b(ex, c)
+            n = L.simp(ex.heap.llen(r))
+            if z3.is_int_value(n) and n.as_long() <= 8:
+                # a display of a few elements (`x in (7, 8)`): membership is the disjunction of the comparisons
+                return z3.Or([self.py_eq(ex, ex.to_val(item), L.simp(ex.heap.lelt(r, z3.IntVal(k)))) for k in range(n.as_long())] or [z3.BoolVal(False)])
             return L.UF('seq_contains', I, z3.ArraySort(I, Val), Val, B)(ex.heap.llen(r), ex.heap.lelts(r), item)
         if ex.branch(L.is_Str(c), 'in-str'):
             if not ex.branch(L.is_Str(item), 'in-str-str'):
